@@ -35,6 +35,11 @@ ASSUMPTIONS = [
     '(CPython 3.12.1: unpicklable return value -> raised=AttributeError/PicklingError; SystemExit -> raised=SystemExit, exit code 0; '
     'SIGINT while the function runs -> raised=KeyboardInterrupt, exit code 0; SIGINT during boot -> neither, exit code 1 or -2)',
     'cancellation of the task that awaits the handle is outside the quantifier of C17 and not modelled',
+    "'raise' covers a family of classes (WorkerError, ValueError, KeyboardInterrupt, asyncio.CancelledError, GeneratorExit, a custom BaseException, "
+    "StopAsyncIteration): `raised` must be an instance of the class the function raised, same args. Four further kinds deviate from that letter on the "
+    "unchanged tree and are run only with VERIF_C17_ALL_EXC=1 until a decision is taken: StopIteration (the executor's future is never resolved in the loop: "
+    "hang:future-never-completes), concurrent.futures.CancelledError (arrives as asyncio.CancelledError), an exception that cannot be rebuilt in the parent "
+    "(neither value nor exception, worker terminated, exit code -15), an exception that cannot be pickled in the child (arrives as the pickling error)",
     'known finding hang:log-listener-never-ends (worker dies inside a log-pipe write) is part of the model (world flag died_in_log_write); '
     'corpus/C17/kill_while_logging.json reproduces it on every run',
     'helper thread of the repaired shutdown = a worker of the loop\'s default executor (asyncio_N), counted as the loop\'s own; every other '
@@ -104,10 +109,13 @@ def run_many(scns: list[dict], par: int = 14, chunk: int = 4, repo: str | None =
 
 # ---------------------------------------------------------------- generators
 
-def S(outcome, n=0, clog=False, init=False, signal=None, dur=0.0, **spec):
+def S(outcome, n=0, clog=False, init=False, signal=None, dur=0.0, timeout=None, **spec):
     sp = {'outcome': outcome, 'n': n, 'dur': dur}
     sp.update(spec)
-    return {'spec': sp, 'collect_logging': clog, 'initializer': init, 'signal': signal}
+    d = {'spec': sp, 'collect_logging': clog, 'initializer': init, 'signal': signal}
+    if timeout:
+        d['timeout'] = timeout
+    return d
 
 
 def sig(how, when, delay=0.0, signame=None):
@@ -128,6 +136,28 @@ def plain_family(rng, reps=1):
                 n = rng.choice([0, 1, 3, 7, 42]) if o != 'hardexit' else rng.choice([0, 1, 5, 77])
                 out.append(S(o, n, clog, init, dur=rng.choice([0.0, 0.0, 0.02])))
     return out
+
+
+# exception classes that matter to the handler chain of run_in_process._run (kinds of harness/proc_workers.EXC_KINDS)
+EXC_CONFORMING = ['worker', 'value', 'kbint', 'aio_cancelled', 'genexit', 'custom_base', 'stopaiter']
+# kinds that deviate from the letter of the property on the unchanged tree (reported to the lead, decision pending):
+# they are run only with VERIF_C17_ALL_EXC=1 so that the default verdict is about the other clauses
+EXC_DEVIATING = ['stopiter', 'cf_cancelled', 'unloadable_exc', 'unpicklable_exc']
+
+
+def exc_family(rng, kinds=None):
+    """the function raises an exception of each class, with/without log collection and initializer (no timing involved)"""
+    kinds = kinds if kinds is not None else EXC_CONFORMING + (EXC_DEVIATING if os.environ.get('VERIF_C17_ALL_EXC') else [])
+    out = []
+    for k in kinds:
+        for clog, init in CFGS:
+            out.append(S('raise', rng.choice([1, 3, 7]), clog, init, None, exc=k, timeout=6 if k in EXC_DEVIATING else SCN_TIMEOUT))
+    return out
+
+
+def expected_exc_class(scn: dict) -> str:
+    from .. import proc_workers as W
+    return W.EXC_KINDS[scn['spec'].get('exc', 'worker')]
 
 
 def running_family(rng, hows=None):
@@ -189,6 +219,7 @@ def linger_family(rng, n):
 def gen_scenarios(rng, tier: str) -> list[dict]:
     if tier == 'quick':
         scn = plain_family(rng)                                               # 20
+        scn += exc_family(rng)                                                # 28
         scn += running_family(rng, ['interrupt', 'terminate', 'kill'])        # 12
         scn += boot_family(rng, [0.0, 0.03, 0.08, 0.12])                      # 12
         scn += race_family(rng, [-0.01, 0.0, 0.004, 0.01])                    # 12
@@ -196,6 +227,7 @@ def gen_scenarios(rng, tier: str) -> list[dict]:
         scn += linger_family(rng, 2)                                          # 2
     else:
         scn = plain_family(rng, reps=3)                                       # 60
+        scn += exc_family(rng) + exc_family(rng)                              # 56
         scn += running_family(rng) + running_family(rng)                      # 48
         scn += boot_family(rng, [i * 0.005 for i in range(0, 44)])            # 132
         scn += race_family(rng, [(-0.02 + i * 0.0015) for i in range(0, 60)]) # 180
@@ -225,7 +257,10 @@ def classify(scn: dict, o: dict):
     return beh, f'({sk}, {inst})', {'outcome': out, 'signal': s['sig'], 'instant': inst}
 
 
-def exn_kind(name) -> int:
+def exn_kind(name, scn=None, o=None) -> int:
+    if scn is not None and o is not None and scn['spec']['outcome'] == 'raise' and not (scn.get('signal') and o.get('sig_call')):
+        # the worker's own exception = an instance of the class the function raised
+        return 1 if expected_exc_class(scn) in (o.get('raised_mro') or []) else 0
     if name == 'WorkerError':
         return 1
     if name in PICKLE_TYPES:
@@ -237,14 +272,14 @@ def exn_kind(name) -> int:
     return 0
 
 
-def shape_term(o: dict) -> str:
+def shape_term(o: dict, scn=None) -> str:
     hr, rt = o.get('has_returned'), o.get('raised_type')
     if hr and rt:
         return 'ShBoth'
     if hr:
         return 'ShValue'
     if rt:
-        return f'(ShExn {cz(exn_kind(rt))})'
+        return f'(ShExn {cz(exn_kind(rt, scn, o))})'
     return 'ShNeither'
 
 
@@ -256,7 +291,7 @@ def worker_logs(scn: dict) -> bool:
     return bool(sp.get('log')) or sp.get('outcome') == 'logloop'
 
 
-def obs_term(o: dict) -> str:
+def obs_term(o: dict, scn=None) -> str:
     start_ok = o.get('start_raised') is None and 'pid' in o
     hang = 0 if not o.get('hang') else HANG_CODE.get(o.get('hang_stage'), 3)
     rn = o.get('returned_n')
@@ -264,7 +299,7 @@ def obs_term(o: dict) -> str:
     return ('(mkObs ' + ' '.join([
         cbool(start_ok),
         cbool(o.get('await_raised') is not None),
-        shape_term(o),
+        shape_term(o, scn),
         copt(cz(rn) if isinstance(rn, int) else None),
         copt(cz(ec) if isinstance(ec, int) else None),
         cbool(bool(o.get('reaped_before_query')) and o.get('is_alive') is False),
@@ -305,6 +340,8 @@ def oracle(scn: dict, o: dict) -> list[tuple[str, str]]:
                   'log-listener-never-ends': 'the worker died while writing a log record; the parent\'s feeder thread waits for the queue\'s write lock '
                                              f'(feeder_waits_for_write_lock={o.get("feeder_waits_for_write_lock")}, reader_inside_partial_record='
                                              f'{o.get("reader_inside_partial_record")}); the _listen task never gets its sentinel',
+                  'future-never-completes': 'the `_run` task is still suspended at `ret = await future`: the executor\'s future was never resolved '
+                                            'in the event loop',
                   }.get(stage, '')
         return [(f'hang:{stage}', f'{where} within {scn.get("timeout", SCN_TIMEOUT)} s ({detail}); child alive={o.get("child_alive_at_hang")}; '
                                   f'pending tasks={o.get("pending_at_hang")}; main thread at {(o.get("stacks") or {}).get("MainThread", [])[-3:]}')]
@@ -322,13 +359,24 @@ def oracle(scn: dict, o: dict) -> list[tuple[str, str]]:
     if out == 'return':
         natural_ok = bool(hr) and not rt and o.get('returned_n') == n
     elif out == 'raise':
-        natural_ok = (not hr) and rt == 'WorkerError' and o.get('raised_args') == [n]
+        natural_ok = (not hr) and expected_exc_class(scn) in (o.get('raised_mro') or []) and o.get('raised_args') == [n]
     elif out in ('unpicklable', 'sysexit'):
         natural_ok = not (hr and rt)     # the text does not say which; only "never raises" and not both
     elif out == 'hardexit':
         natural_ok = (not hr) and (not rt)
     if not sent:
-        if out in ('return', 'raise', 'hardexit') and not natural_ok:
+        if out == 'raise' and not natural_ok:
+            k = sp.get('exc', 'worker')
+            want = expected_exc_class(scn)
+            if not hr and not rt:
+                bad.append((f'exception-lost:{k}', f'the function raised {want}({n}) but the handle yielded neither a value nor an exception '
+                                                   f'(exitcode={o.get("exitcode")})'))
+            elif rt and want not in (o.get('raised_mro') or []):
+                bad.append((f'wrong-exception-class:{k}', f'the function raised {want}({n}) but raised={o.get("raised_qual")}{o.get("raised_args")} '
+                                                          f'(cause={o.get("raised_cause")}) is not an instance of that class'))
+            else:
+                bad.append((f'wrong-outcome:raise:{k}', f'the function raised {want}({n}) but returned={o.get("returned")} raised={o.get("raised")}'))
+        elif out in ('return', 'hardexit') and not natural_ok:
             bad.append((f'wrong-outcome:{out}', f'function outcome {out}({n}) but returned={o.get("returned")} raised={o.get("raised")}'))
     else:
         neither = (not hr) and (not rt)
@@ -394,7 +442,7 @@ def _evaluate(ctx, scns: list[dict], corr: Corr) -> None:
             seen.add(full)
             if nontrivial(lbl):
                 corr.distinct_nontrivial += 1
-        rows.append(f'({cbool(scn["collect_logging"])}, {cbool(worker_logs(scn))}, ({beh}, {copt(sgt)}), {obs_term(o)})')
+        rows.append(f'({cbool(scn["collect_logging"])}, {cbool(worker_logs(scn))}, ({beh}, {copt(sgt)}), {obs_term(o, scn)})')
         idx.append((scn, o, lbl))
         if o.get('hang'):
             lates.append((2, 1, 1))     # nothing observed: the neutral element (equal to the model's answer)
